@@ -2,6 +2,8 @@ import Grexv.Model.Format
 import Grexv.Lemmas.AsciiPipeline
 import Grexv.Lemmas.Stages
 import Grexv.Lemmas.EndToEnd
+import Grexv.Lemmas.SurRel
+import Grexv.Props.C08
 
 /-!
 # C11 — non-ASCII escaping is complete, well-formed and reversible (character level and whole pattern)
@@ -146,6 +148,29 @@ theorem escape_round_trip (n : Nat) (hn : Spec.isScalar n = true) (h : 128 ≤ n
     simp
   rw [this]
   exact parseEscape_hex n hn rest
+
+/-- **C11 (surrogate pairs, whole pattern)** for every well-formed expression, not verbose and without colours: the text
+printed with surrogate pairs is the text printed with `-e` alone in which the escapes of astral code points are written
+as their pair of surrogate escapes — nothing else differs (BMP characters, operators, groups and classes are
+unchanged); each pair decodes back to its code point (`escapeChar_pair`), so decoding gives exactly the `-e` text -/
+theorem surrogate_text_is_escaped_text_with_pairs (cfg : Config) (hc : cfg.color = false) (hv : cfg.verb = false)
+    (e : Expr) (h : e.WF) : SurRel (fmtRegExp (withSur cfg true) e) (fmtRegExp (withSur cfg false) e) :=
+  surRel_regexp cfg hc hv e h
+
+/-- **C11 (surrogate pairs, whole run, all inputs without `-r`, an anchor in place)** the output with surrogate pairs and
+the output with `-e` alone come from the same expression and differ only in the astral escapes -/
+theorem surrogate_output_related (cfg : Config) (hc : cfg.color = false) (hv : cfg.verb = false) (hrep : cfg.rep = false)
+    (hanch : ¬ (cfg.noStart = true ∧ cfg.noEnd = true)) (env : Env) (ws : List Str) (stS stN : Stages)
+    (hS : regExpFrom (withSur cfg true) env ws = .ok stS) (hN : regExpFrom (withSur cfg false) env ws = .ok stN)
+    (hseg : ∀ w ∈ storedCases cfg env ws, SegOK env w) (hws : ws ≠ []) :
+    SurRel (fmtRegExp (withSur cfg true) stS.finalAst) (fmtRegExp (withSur cfg false) stN.finalAst) := by
+  have hsame : SameStageInputs (withSur cfg true) (withSur cfg false) := ⟨rfl, rfl, rfl, rfl, rfl, rfl, rfl, rfl, rfl, rfl, rfl⟩
+  have h1 := (firstAst_independent hsame env ws stS stN hS hN).2.2.2.2
+  have f1 := (Props.C08.no_selfcheck_when_anchored (withSur cfg true) env ws stS hanch hS).1
+  have f2 := (Props.C08.no_selfcheck_when_anchored (withSur cfg false) env ws stN hanch hN).1
+  have hwf : stN.finalAst.WF := final_expr_wf (withSur cfg false) hrep env ws stN hN hseg hws
+  rw [f1, h1, ← f2]
+  exact surRel_regexp cfg hc hv _ hwf
 
 /-! non-vacuity -/
 example : Expr.escapeChar 0x1F4A9 true = strOf "\\u{d83d}\\u{dca9}" := by decide
